@@ -20,7 +20,7 @@ def sh(cmd, **kw):
 
 
 def main():
-    ids = sys.argv[1:] or sorted(d for d in os.listdir(SEEDED) if os.path.isdir(os.path.join(SEEDED, d)))
+    ids = sys.argv[1:] or sorted(d for d in os.listdir(SEEDED) if os.path.isfile(os.path.join(SEEDED, d, "meta.json")))
     results_path = os.path.join(SEEDED, "RESULTS.json")
     results = json.load(open(results_path)) if os.path.exists(results_path) else {}
     dirty = sh(["git", "-C", "/repo", "status", "--porcelain", "--untracked-files=no"]).stdout.strip()
@@ -54,7 +54,7 @@ def main():
 def write_readme(results):
     """seeded/README.md: one row per confirmed breaking change, from meta.json and RESULTS.json"""
     rows = []
-    for sid in sorted(d for d in os.listdir(SEEDED) if os.path.isdir(os.path.join(SEEDED, d))):
+    for sid in sorted(d for d in os.listdir(SEEDED) if os.path.isfile(os.path.join(SEEDED, d, "meta.json"))):
         meta = json.load(open(os.path.join(SEEDED, sid, "meta.json")))
         res = results.get(sid, {})
         checks = res.get("checks", {})
